@@ -1,5 +1,6 @@
 import Dbg.Model.CompressGraph
 import Dbg.Lemmas.WalkProofs
+import Dbg.Lemmas.GraphSym
 /-! # C09 — Graph re-compression and node censoring are exact
 
 Proved so far for the model of `CompressFromGraph`: every walk only steps onto available nodes, removes them from the
@@ -180,5 +181,613 @@ theorem C09_censored_excluded (st : Bool) (g : G D) (join : D → D → Bool) (r
     have := a np hnp i hi
     simp only [List.mem_filter, List.mem_range, Bool.not_eq_true', List.contains_eq_mem, decide_eq_false_iff_not] at this
     exact ⟨this.2, this.1⟩
+
+end CompressGraph
+
+namespace CompressGraph
+open Compress (Seq Exts Node windowsOf)
+open Walk (Dir rm mem_rm)
+open Graph
+variable {D : Type}
+
+/-! ### every step of a walk follows a reported edge; the merged sequence spells the merged nodes -/
+
+theorem nibUniq_has (n : Nat) (b : Compress.Base) (h : Compress.nibUniq n = some b) : Compress.nibHas n b = true := by
+  unfold Compress.nibUniq at h
+  unfold Compress.nibHas
+  split at h
+  · cases h; simp only [bne_iff_ne, ne_eq]; show ¬ (n &&& (1 <<< 0) = 0); rename_i h1; simp at h1 ⊢; omega
+  · split at h
+    · cases h; simp only [bne_iff_ne, ne_eq]; show ¬ (n &&& (1 <<< 1) = 0); rename_i h1; simp at h1 ⊢; omega
+    · split at h
+      · cases h; simp only [bne_iff_ne, ne_eq]; show ¬ (n &&& (1 <<< 2) = 0); rename_i h1; simp at h1 ⊢; omega
+      · split at h
+        · cases h; simp only [bne_iff_ne, ne_eq]; show ¬ (n &&& (1 <<< 3) = 0); rename_i h1; simp at h1 ⊢; omega
+        · cases h
+
+/-- a `unique` answer of `try_extend_node` is one of the edges reported from that side -/
+theorem tryExtendNode_edge (g : G D) (st : Bool) (join : D → D → Bool) (avail : List Nat) (cur : Nat) (dir : Dir)
+    (nx : Nat) (out : Dir) (h : tryExtendNode g st join avail cur dir = .unique nx out) :
+    ∃ es f, findEdges g cur dir = some es ∧ (nx, out.flip, f) ∈ es := by
+  unfold tryExtendNode at h
+  cases hn : g.nodes[cur]? with
+  | none => rw [hn] at h; cases h
+  | some nd =>
+    rw [hn] at h
+    simp only at h
+    split at h
+    · cases h
+    · cases hu : nd.exts.uniqueExt dir with
+      | none => rw [hu] at h; cases h
+      | some b =>
+        rw [hu] at h
+        simp only at h
+        cases hl : findLink g (Compress.extend (termKmer g.K nd.seq dir) b dir) dir with
+        | none => rw [hl] at h; cases h
+        | some r =>
+          obtain ⟨nextId, incoming, flip⟩ := r
+          rw [hl] at h
+          simp only at h
+          cases hnn : g.nodes[nextId]? with
+          | none => rw [hnn] at h; cases h
+          | some nn =>
+            rw [hnn] at h
+            simp only at h
+            have key : ∀ (c1 c2 : Bool) (cnt : Nat) (e : Exts),
+                (if c1 = true then ExtModeNode.panic else if c2 = true then ExtModeNode.terminal e
+                  else if (cnt == 0) = true then ExtModeNode.panic
+                  else if (cnt == 1) = true then ExtModeNode.unique nextId incoming.flip else ExtModeNode.terminal e) =
+                  ExtModeNode.unique nx out → nx = nextId ∧ out = incoming.flip := by
+              intro c1 c2 cnt e hh
+              cases c1 <;> cases c2 <;> simp only [Bool.false_eq_true, if_false, if_true] at hh
+              · split at hh
+                · cases hh
+                · split at hh
+                  · simp only [ExtModeNode.unique.injEq] at hh; exact ⟨hh.1.symm, hh.2.symm⟩
+                  · cases hh
+              · cases hh
+              · cases hh
+              · cases hh
+            obtain ⟨rfl, rfl⟩ := key _ _ _ _ h
+            refine ⟨_, flip, by unfold findEdges; rw [hn], ?_⟩
+            rw [Dir.flip_flip, List.mem_filterMap]
+            have hb : nd.exts.hasExt dir b.val = true := by
+              rw [Compress.uniqueExt_eq] at hu
+              split at hu
+              · cases hu
+              · have := nibUniq_has _ b hu
+                unfold Compress.nibHas at this
+                unfold Compress.Exts.hasExt
+                simp only [bne_iff_ne, ne_eq] at this
+                simp only [decide_eq_true_eq]
+                omega
+            exact ⟨b, Graph.mem_base4 b, by rw [if_pos hb]; exact hl⟩
+
+/-- entries of a walk, as `sequence_of_path` reads them: each follows an edge out of its predecessor -/
+theorem extendNode_chain (g : G D) (st : Bool) (join : D → D → Bool) (avail : List Nat) (cur : Nat) (dir : Dir)
+    (p : List (Nat × Dir)) (e : Exts) (a' : List Nat) (h : extendNode g st join avail cur dir = some (p, e, a')) :
+    Graph.ChainStep g (cur, dir.flip) p := by
+  fun_induction extendNode g st join avail cur dir generalizing p e a' with
+  | case1 avail cur dir nx out hx hmem p0 e0 a0 hrec ih =>
+    simp only [Option.some.injEq, Prod.mk.injEq] at h
+    obtain ⟨rfl, rfl, rfl⟩ := h
+    obtain ⟨es, f, he, hm⟩ := tryExtendNode_edge g st join avail cur dir nx out hx
+    refine ⟨Or.inl ⟨es, f, by simpa [Dir.flip_flip] using he, hm⟩, ?_⟩
+    have := ih p0 e0 a0 hrec
+    simpa [Dir.flip_flip] using this
+  | case2 avail cur dir nx out hx hmem hrec => simp at h
+  | case3 avail cur dir nx out hx hmem => simp at h
+  | case4 avail cur dir e1 hx =>
+    simp only [Option.some.injEq, Prod.mk.injEq] at h
+    obtain ⟨rfl, rfl, rfl⟩ := h
+    trivial
+  | case5 avail cur dir hx => simp at h
+
+end CompressGraph
+
+namespace CompressGraph
+open Compress (Seq Exts Node windowsOf)
+open Walk (Dir rm mem_rm)
+open Graph
+variable {D : Type}
+
+def IsChain (g : G D) : List (Nat × Dir) → Prop
+  | [] => True
+  | p :: rest => ChainStep g p rest
+
+theorem chainStep_cons_append (g : G D) (p : Nat × Dir) (l1 l2 : List (Nat × Dir)) (q : Nat × Dir)
+    (h1 : ChainStep g p (l1 ++ [q])) (h2 : ChainStep g q l2) : ChainStep g p (l1 ++ [q] ++ l2) := by
+  induction l1 generalizing p with
+  | nil => exact ⟨h1.1, h2⟩
+  | cons a t ih => exact ⟨h1.1, ih a h1.2⟩
+
+/-- two chains sharing their junction entry -/
+theorem isChain_append (g : G D) (l1 l2 : List (Nat × Dir)) (q : Nat × Dir)
+    (h1 : IsChain g (l1 ++ [q])) (h2 : ChainStep g q l2) : IsChain g (l1 ++ [q] ++ l2) := by
+  cases l1 with
+  | nil => exact h2
+  | cons a t => exact chainStep_cons_append g a t l2 q h1 h2
+
+def flip2 (p : Nat × Dir) : Nat × Dir := (p.1, p.2.flip)
+
+theorem stepOK_flip (g : G D) (a b : Nat × Dir) (h : StepOK g a b) : StepOK g (flip2 b) (flip2 a) := by
+  rcases h with ⟨es, f, he, hm⟩ | ⟨es, f, he, hm⟩
+  · exact Or.inr ⟨es, f, he, by simpa [flip2, Dir.flip_flip] using hm⟩
+  · exact Or.inl ⟨es, f, by simpa [flip2, Dir.flip_flip] using he, by simpa [flip2] using hm⟩
+
+/-- a chain read backwards, every entry seen from its other side -/
+theorem isChain_reverse (g : G D) (p : Nat × Dir) (rest : List (Nat × Dir)) (h : ChainStep g p rest) :
+    IsChain g ((rest.map flip2).reverse ++ [flip2 p]) := by
+  induction rest generalizing p with
+  | nil => trivial
+  | cons q t ih =>
+    have h1 := ih q h.2
+    simp only [List.map_cons, List.reverse_cons, List.append_assoc, List.singleton_append]
+    have : (t.map flip2).reverse ++ flip2 q :: [flip2 p] = ((t.map flip2).reverse ++ [flip2 q]) ++ [flip2 p] := by simp
+    rw [this]
+    exact isChain_append g _ [flip2 p] (flip2 q) h1 ⟨stepOK_flip g p q h.1, trivial⟩
+
+end CompressGraph
+
+namespace CompressGraph
+open Compress (Seq Exts Node windowsOf)
+open Walk (Dir rm mem_rm)
+open Graph
+variable {D : Type}
+
+theorem extendNode_nodes (g : G D) (st : Bool) (join : D → D → Bool) (avail : List Nat) (cur : Nat) (dir : Dir)
+    (p : List (Nat × Dir)) (e : Exts) (a' : List Nat) (h : extendNode g st join avail cur dir = some (p, e, a')) :
+    ∀ q ∈ p, (g.nodes[q.1]?).isSome := by
+  fun_induction extendNode g st join avail cur dir generalizing p e a' with
+  | case1 avail cur dir nx out hx hmem p0 e0 a0 hrec ih =>
+    simp only [Option.some.injEq, Prod.mk.injEq] at h
+    obtain ⟨rfl, rfl, rfl⟩ := h
+    obtain ⟨es, f, he, hm⟩ := tryExtendNode_edge g st join avail cur dir nx out hx
+    intro q hq
+    rcases List.mem_cons.mp hq with rfl | hq'
+    · exact (findEdges_nodes g cur dir es he).2 _ hm
+    · exact ih p0 e0 a0 hrec q hq'
+  | case2 avail cur dir nx out hx hmem hrec => simp at h
+  | case3 avail cur dir nx out hx hmem => simp at h
+  | case4 avail cur dir e1 hx =>
+    simp only [Option.some.injEq, Prod.mk.injEq] at h
+    obtain ⟨rfl, rfl, rfl⟩ := h
+    intro q hq; cases hq
+  | case5 avail cur dir hx => simp at h
+
+/-- **C09 (k-mers and payload of a merged node).** The sequence of a node built by `build_node` spells exactly the
+    k-mers of the old nodes on its path, in walking orientation and in order; its payload is the caller's reduction folded
+    over the payloads of the left path, then of the right path, starting from the seed's. -/
+theorem buildNode_kmers (g : G D) (hK : 1 ≤ g.K) (hl : ∀ (i : Nat) (n : Node D), g.nodes[i]? = some n → g.K ≤ n.seq.length)
+    (st : Bool) (join : D → D → Bool) (reduce : D → D → D) (avail : List Nat) (seed : Nat)
+    (nd : Node D) (path : List (Nat × Dir)) (a' : List Nat) (h : buildNode g st join reduce avail seed = some (nd, path, a')) :
+    windowsOf g.K nd.seq = path.flatMap (orientedKmers g) ∧ IsChain g path ∧ (∀ q ∈ path, (g.nodes[q.1]?).isSome) := by
+  unfold buildNode at h
+  cases hn : g.nodes[seed]? with
+  | none => simp [hn] at h
+  | some sn =>
+    simp only [hn] at h
+    cases hL : extendNode g st join (rm avail seed) seed .L with
+    | none => simp [hL] at h
+    | some rl =>
+      obtain ⟨lpath, lext, a2⟩ := rl
+      simp only [hL] at h
+      cases hR : extendNode g st join (rm a2 seed) seed .R with
+      | none => simp [hR] at h
+      | some rr =>
+        obtain ⟨rpath, rext, a3⟩ := rr
+        simp only [hR] at h
+        split at h
+        · rename_i dat sq hdat hsq
+          simp only [Option.some.injEq, Prod.mk.injEq] at h
+          obtain ⟨rfl, rfl, rfl⟩ := h
+          have cl := extendNode_chain g st join _ _ _ _ _ _ hL
+          have cr := extendNode_chain g st join _ _ _ _ _ _ hR
+          have nl := extendNode_nodes g st join _ _ _ _ _ _ hL
+          have nr := extendNode_nodes g st join _ _ _ _ _ _ hR
+          -- the whole path is a chain
+          have hrev := isChain_reverse g (seed, Dir.L.flip) lpath cl
+          have hmap : (lpath.map fun p => (p.1, p.2.flip)) = lpath.map flip2 := rfl
+          have hchain : IsChain g ((lpath.map fun p => (p.1, p.2.flip)).reverse ++ [(seed, Dir.L)] ++ rpath) := by
+            rw [hmap]
+            exact isChain_append g _ rpath (seed, Dir.L) (by simpa [flip2, Dir.flip] using hrev) (by simpa [Dir.flip] using cr)
+          have hnodes : ∀ q ∈ (lpath.map fun p => (p.1, p.2.flip)).reverse ++ [(seed, Dir.L)] ++ rpath, (g.nodes[q.1]?).isSome := by
+            intro q hq
+            simp only [List.mem_append, List.mem_reverse, List.mem_map, List.mem_singleton] at hq
+            rcases hq with (⟨p, hp, rfl⟩ | rfl) | hq
+            · exact nl p hp
+            · rw [hn]; rfl
+            · exact nr q hq
+          refine ⟨?_, hchain, hnodes⟩
+          -- `sequence_of_path` on a chain
+          cases hpath : (lpath.map fun p => (p.1, p.2.flip)).reverse ++ [(seed, Dir.L)] ++ rpath with
+          | nil => simp at hpath
+          | cons p0 rest =>
+            rw [hpath] at hchain hnodes hsq
+            obtain ⟨S, e, w⟩ := walk_sequence g hK hl p0 rest (hnodes p0 (by simp)) (fun q hq => hnodes q (by simp [hq])) hchain
+            rw [hsq] at e; cases e
+            exact w
+        · simp at h
+
+end CompressGraph
+
+namespace CompressGraph
+open Compress (Seq Exts Node windowsOf)
+open Walk (Dir rm mem_rm)
+open Graph
+variable {D : Type}
+
+/-! ### `fix_exts` only rewrites extension bytes -/
+
+def sameShape (g g' : G D) : Prop :=
+  g'.K = g.K ∧ g'.stranded = g.stranded ∧ g'.nodes.map (·.seq) = g.nodes.map (·.seq) ∧ g'.nodes.map (·.data) = g.nodes.map (·.data)
+
+theorem sameShape_refl (g : G D) : sameShape g g := ⟨rfl, rfl, rfl, rfl⟩
+theorem sameShape_trans {g1 g2 g3 : G D} (h1 : sameShape g1 g2) (h2 : sameShape g2 g3) : sameShape g1 g3 :=
+  ⟨h2.1.trans h1.1, h2.2.1.trans h1.2.1, h2.2.2.1.trans h1.2.2.1, h2.2.2.2.trans h1.2.2.2⟩
+
+theorem sameShape_setExts (g : G D) (i : Nat) (nd : Node D) (hn : g.nodes[i]? = some nd) (e : Exts) :
+    sameShape g { g with nodes := g.nodes.set i { nd with exts := e } } := by
+  have hlt : i < g.nodes.length := Graph.getElem?_lt hn
+  have hnd : g.nodes[i] = nd := by rw [List.getElem?_eq_getElem hlt] at hn; exact Option.some.inj hn
+  refine ⟨rfl, rfl, ?_, ?_⟩
+  · show (g.nodes.set i _).map (·.seq) = _
+    rw [List.map_set]
+    show (g.nodes.map (·.seq)).set i nd.seq = _
+    rw [← hnd]
+    have : (g.nodes.map (·.seq))[i]'(by simpa using hlt) = g.nodes[i].seq := by simp
+    rw [← this, List.set_getElem_self]
+  · show (g.nodes.set i _).map (·.data) = _
+    rw [List.map_set]
+    show (g.nodes.map (·.data)).set i nd.data = _
+    rw [← hnd]
+    have : (g.nodes.map (·.data))[i]'(by simpa using hlt) = g.nodes[i].data := by simp
+    rw [← this, List.set_getElem_self]
+
+theorem fixExts_shape (g : G D) (valid : Option (List Nat)) : sameShape g (fixExts g valid) := by
+  unfold fixExts
+  -- generalise the start of the fold (the list of indices is computed once, from the original graph)
+  have key : ∀ (is : List Nat) (g0 : G D), sameShape g g0 →
+      sameShape g (is.foldl (fun (g : G D) i =>
+        match getValidExts g i valid, g.nodes[i]? with
+        | some e, some nd => { g with nodes := g.nodes.set i { nd with exts := e } }
+        | _, _ => g) g0) := by
+    intro is
+    induction is with
+    | nil => intro g0 h; exact h
+    | cons i t ih =>
+      intro g0 h
+      rw [List.foldl_cons]
+      apply ih
+      split
+      · rename_i e nd _ hn
+        exact sameShape_trans h (sameShape_setExts g0 i nd hn e)
+      · exact h
+  exact key _ g (sameShape_refl g)
+
+theorem orientedKmers_shape (g g' : G D) (h : sameShape g g') (p : Nat × Dir) : orientedKmers g' p = orientedKmers g p := by
+  unfold orientedKmers
+  have hs := congrArg (·[p.1]?) h.2.2.1
+  simp only [List.getElem?_map] at hs
+  rw [h.1]
+  cases h1 : g'.nodes[p.1]? with
+  | none =>
+    rw [h1] at hs
+    cases h2 : g.nodes[p.1]? with
+    | none => rfl
+    | some n => rw [h2] at hs; cases hs
+  | some n' =>
+    rw [h1] at hs
+    cases h2 : g.nodes[p.1]? with
+    | none => rw [h2] at hs; cases hs
+    | some n =>
+      rw [h2] at hs
+      simp only [Option.map_some, Option.some.injEq] at hs
+      simp only [hs]
+
+theorem shape_len (g g' : G D) (h : sameShape g g') (hl : ∀ (i : Nat) (n : Node D), g.nodes[i]? = some n → g.K ≤ n.seq.length) :
+    ∀ (i : Nat) (n : Node D), g'.nodes[i]? = some n → g'.K ≤ n.seq.length := by
+  intro i n hn
+  have hs := congrArg (·[i]?) h.2.2.1
+  simp only [List.getElem?_map, hn, Option.map_some] at hs
+  cases h2 : g.nodes[i]? with
+  | none => rw [h2] at hs; cases hs
+  | some m =>
+    rw [h2] at hs
+    simp only [Option.map_some, Option.some.injEq] at hs
+    rw [h.1, hs]; exact hl i m h2
+
+/-! ### the loop covers every available node -/
+
+theorem compressLoop_cover (g : G D) (st : Bool) (join : D → D → Bool) (reduce : D → D → D) :
+    ∀ (is avail : List Nat) (out : List (Node D × List (Nat × Dir))),
+      compressLoop g st join reduce is avail = some out →
+      ∀ i ∈ is, i ∈ avail → ∃ np ∈ out, i ∈ ids np.2 := by
+  intro is
+  induction is with
+  | nil => intro avail out _ i hi; cases hi
+  | cons j is ih =>
+    intro avail out h i hi hia
+    simp only [compressLoop] at h
+    by_cases hj : j ∈ avail
+    · simp only [hj, if_true] at h
+      cases hb : buildNode g st join reduce avail j with
+      | none => simp [hb] at h
+      | some r =>
+        obtain ⟨nd, path, a'⟩ := r
+        simp only [hb] at h
+        cases hrest : compressLoop g st join reduce is a' with
+        | none => simp [hrest] at h
+        | some rest =>
+          simp only [hrest, Option.some.injEq] at h
+          subst h
+          obtain ⟨_, b2, _, b4⟩ := buildNode_ok g st join reduce avail j hj nd path a' hb
+          by_cases hin : i ∈ ids path
+          · exact ⟨(nd, path), by simp, hin⟩
+          · rcases List.mem_cons.mp hi with rfl | hi'
+            · exact absurd b4 hin
+            · obtain ⟨np, hnp, hm⟩ := ih a' rest hrest i hi' ((b2 i).mpr ⟨hia, hin⟩)
+              exact ⟨np, by simp [hnp], hm⟩
+    · simp only [hj, if_false] at h
+      rcases List.mem_cons.mp hi with rfl | hi'
+      · exact absurd hia hj
+      · exact ih avail out h i hi' hia
+
+theorem compressLoop_kmers (g : G D) (hK : 1 ≤ g.K) (hl : ∀ (i : Nat) (n : Node D), g.nodes[i]? = some n → g.K ≤ n.seq.length)
+    (st : Bool) (join : D → D → Bool) (reduce : D → D → D) :
+    ∀ (is avail : List Nat) (out : List (Node D × List (Nat × Dir))),
+      compressLoop g st join reduce is avail = some out →
+      ∀ np ∈ out, windowsOf g.K np.1.seq = np.2.flatMap (orientedKmers g) ∧ IsChain g np.2 := by
+  intro is
+  induction is with
+  | nil => intro avail out h np hnp; simp only [compressLoop, Option.some.injEq] at h; subst h; cases hnp
+  | cons j is ih =>
+    intro avail out h np hnp
+    simp only [compressLoop] at h
+    by_cases hj : j ∈ avail
+    · simp only [hj, if_true] at h
+      cases hb : buildNode g st join reduce avail j with
+      | none => simp [hb] at h
+      | some r =>
+        obtain ⟨nd, path, a'⟩ := r
+        simp only [hb] at h
+        cases hrest : compressLoop g st join reduce is a' with
+        | none => simp [hrest] at h
+        | some rest =>
+          simp only [hrest, Option.some.injEq] at h
+          subst h
+          rcases List.mem_cons.mp hnp with rfl | hnp'
+          · obtain ⟨w, c, _⟩ := buildNode_kmers g hK hl st join reduce avail j nd path a' hb
+            exact ⟨w, c⟩
+          · exact ih a' rest hrest np hnp'
+    · simp only [hj, if_false] at h
+      exact ih avail out h np hnp
+
+/-- **C09 (k-mers, coverage).** If `compress_graph` returns, then: it has one new node per returned path; the k-mers of
+    every new node are exactly the k-mers of the old nodes on its path, in walking orientation and in order, every step of
+    the path following an edge of the (pruned) old graph; every non-censored old node lies on exactly one path and no
+    censored node on any. Hence the new graph's k-mers are exactly those of the non-censored nodes, each once. -/
+theorem C09_kmers_cover (st : Bool) (g : G D) (hK : 1 ≤ g.K) (hl : ∀ (i : Nat) (n : Node D), g.nodes[i]? = some n → g.K ≤ n.seq.length)
+    (join : D → D → Bool) (reduce : D → D → D) (censor : List Nat)
+    (g' : G D) (paths : List (List (Nat × Dir))) (h : compressGraph st g join reduce censor = some (g', paths)) :
+    g'.nodes.length = paths.length ∧
+    (∀ (i : Nat) (n : Node D) (p : List (Nat × Dir)), g'.nodes[i]? = some n → paths[i]? = some p →
+      windowsOf g.K n.seq = p.flatMap (orientedKmers g)) ∧
+    (∀ i, i < g.nodes.length → i ∉ censor → ∃ p ∈ paths, i ∈ ids p) ∧
+    (∀ p ∈ paths, ∀ i ∈ ids p, i ∉ censor ∧ i < g.nodes.length) ∧ (paths.map ids).flatten.Nodup := by
+  obtain ⟨hex, hnd⟩ := C09_censored_excluded st g join reduce censor g' paths h
+  unfold compressGraph at h
+  dsimp only at h
+  split at h
+  · simp at h
+  · rename_i nodes hloop
+    simp only [Option.some.injEq, Prod.mk.injEq] at h
+    obtain ⟨hg', hp⟩ := h
+    have sh1 := fixExts_shape g (some ((List.range g.nodes.length).filter fun i => !censor.contains i))
+    have hK1 : 1 ≤ (fixExts g (some ((List.range g.nodes.length).filter fun i => !censor.contains i))).K := by rw [sh1.1]; exact hK
+    have hl1 := shape_len g _ sh1 hl
+    have hkm := compressLoop_kmers _ hK1 hl1 st join reduce _ _ nodes hloop
+    have hcov := compressLoop_cover _ st join reduce _ _ nodes hloop
+    have sh2 := fixExts_shape (⟨g.K, nodes.map (·.1), st⟩ : G D) none
+    refine ⟨?_, ?_, ?_, hex, hnd⟩
+    · rw [← hg', ← hp]
+      have := congrArg List.length sh2.2.2.1
+      simpa using this
+    · intro i n p hn hpi
+      rw [← hp, List.getElem?_map] at hpi
+      cases hx : nodes[i]? with
+      | none => rw [hx] at hpi; cases hpi
+      | some x =>
+        rw [hx] at hpi
+        simp only [Option.map_some, Option.some.injEq] at hpi
+        subst hpi
+        -- the final `fix_exts` keeps the sequences
+        have hs := congrArg (·[i]?) sh2.2.2.1
+        rw [← hg'] at hn
+        simp only [List.getElem?_map, hn, hx, Option.map_some, Option.some.injEq] at hs
+        obtain ⟨w, _⟩ := hkm x (List.mem_of_getElem? hx)
+        rw [sh1.1] at w
+        rw [hs, w]
+        congr 1
+        funext q
+        exact orientedKmers_shape g _ sh1 q
+    · intro i hi hc
+      have hmem : i ∈ (List.range g.nodes.length).filter fun i => !censor.contains i := by
+        simp only [List.mem_filter, List.mem_range, Bool.not_eq_true', List.contains_eq_mem, decide_eq_false_iff_not]
+        exact ⟨hi, hc⟩
+      obtain ⟨np, hnp, hm⟩ := hcov i (List.mem_range.mpr hi) hmem
+      exact ⟨np.2, by rw [← hp]; exact List.mem_map_of_mem hnp, hm⟩
+
+end CompressGraph
+
+namespace CompressGraph
+open Compress (Seq Exts Node windowsOf)
+open Walk (Dir rm mem_rm)
+open Graph
+open Filter (has)
+variable {D : Type}
+
+/-! ### `fix_exts` is exact: no extension is left dangling -/
+
+theorem searchKmer_shape (g g' : G D) (h : sameShape g g') (km : Seq) (side : Dir) : searchKmer g' km side = searchKmer g km side := by
+  unfold searchKmer
+  have e : ∀ (G0 : G D), (G0.nodes.findIdx? fun nd => termKmer G0.K nd.seq side == km) =
+      (G0.nodes.map (·.seq)).findIdx? (fun s => termKmer G0.K s side == km) := by
+    intro G0; rw [List.findIdx?_map]; rfl
+  rw [e g', e g, h.1, h.2.2.1]
+
+theorem findLink_shape (g g' : G D) (h : sameShape g g') (km : Seq) (d : Dir) : findLink g' km d = findLink g km d := by
+  unfold findLink
+  simp only [searchKmer_shape g g' h, h.2.1]
+
+theorem extOk_shape (g g' : G D) (h : sameShape g g') (nd : Node D) (valid : Option (List Nat)) (d : Dir) (b : Compress.Base) :
+    extOk g' nd valid d b ↔ extOk g nd valid d b := by
+  unfold extOk
+  rw [h.1]
+  simp only [findLink_shape g g' h]
+
+/-- the state of the fold of `fix_exts` after the indices `< k` have been processed -/
+structure FixInv (g0 g : G D) (valid : Option (List Nat)) (k : Nat) : Prop where
+  shape : sameShape g0 g
+  done : ∀ (i : Nat) (n0 n : Node D), i < k → g0.nodes[i]? = some n0 → g.nodes[i]? = some n →
+    ∀ d b, has n.exts d b ↔ has n0.exts d b ∧ extOk g0 n0 valid d b
+  todo : ∀ (i : Nat), k ≤ i → g.nodes[i]? = g0.nodes[i]?
+
+theorem shape_get (g g' : G D) (h : sameShape g g') (i : Nat) (n' : Node D) (hn : g'.nodes[i]? = some n') :
+    ∃ n, g.nodes[i]? = some n ∧ n.seq = n'.seq := by
+  have hs := congrArg (·[i]?) h.2.2.1
+  simp only [List.getElem?_map, hn, Option.map_some] at hs
+  cases h2 : g.nodes[i]? with
+  | none => rw [h2] at hs; cases hs
+  | some m => rw [h2] at hs; exact ⟨m, rfl, by simpa using hs.symm⟩
+
+theorem fixExts_exact (g0 : G D) (valid : Option (List Nat)) :
+    ∀ (i : Nat) (n0 n : Node D), g0.nodes[i]? = some n0 → (fixExts g0 valid).nodes[i]? = some n →
+      n.seq = n0.seq ∧ n.data = n0.data ∧ ∀ d b, has n.exts d b ↔ has n0.exts d b ∧ extOk g0 n0 valid d b := by
+  have key : ∀ (m k : Nat) (g : G D), k + m = g0.nodes.length → FixInv g0 g valid k →
+      FixInv g0 ((List.range' k m).foldl (fun (g : G D) i =>
+        match getValidExts g i valid, g.nodes[i]? with
+        | some e, some nd => { g with nodes := g.nodes.set i { nd with exts := e } }
+        | _, _ => g) g) valid (k + m) := by
+    intro m
+    induction m with
+    | zero => intro k g _ h; simpa using h
+    | succ m ih =>
+      intro k g hkm hinv
+      rw [List.range'_succ, List.foldl_cons]
+      have hklt : k < g0.nodes.length := by omega
+      have hgk : g.nodes[k]? = g0.nodes[k]? := hinv.todo k (Nat.le_refl _)
+      have hn0 : g0.nodes[k]? = some g0.nodes[k] := List.getElem?_eq_getElem hklt
+      rw [hn0] at hgk
+      obtain ⟨e, he, hex⟩ := getValidExts_exact g k valid g0.nodes[k] hgk
+      have hstep : (match getValidExts g k valid, g.nodes[k]? with
+          | some e, some nd => { g with nodes := g.nodes.set k { nd with exts := e } }
+          | _, _ => g) = { g with nodes := g.nodes.set k { g0.nodes[k] with exts := e } } := by
+        rw [he, hgk]
+      rw [hstep, show k + (m + 1) = (k + 1) + m by omega]
+      apply ih (k + 1) _ (by omega)
+      have hglen : k < g.nodes.length := Graph.getElem?_lt hgk
+      refine ⟨sameShape_trans hinv.shape (sameShape_setExts g k _ hgk e), ?_, ?_⟩
+      · intro i n0 n hi h0 hn d b
+        by_cases hik : i = k
+        · subst hik
+          rw [hn0] at h0; cases h0
+          have : (g.nodes.set i { g0.nodes[i] with exts := e })[i]? = some { g0.nodes[i] with exts := e } :=
+            List.getElem?_set_self hglen
+          have hn' : n = { g0.nodes[i] with exts := e } := by
+            have h1 : (g.nodes.set i { g0.nodes[i] with exts := e })[i]? = some n := hn
+            rw [this] at h1; exact (Option.some.inj h1).symm
+          subst hn'
+          show has e d b ↔ _
+          rw [hex d b, extOk_shape g0 g hinv.shape]
+        · have : (g.nodes.set k { g0.nodes[k] with exts := e })[i]? = g.nodes[i]? := List.getElem?_set_ne (Ne.symm hik)
+          have hn' : g.nodes[i]? = some n := by rw [← this]; exact hn
+          exact hinv.done i n0 n (by omega) h0 hn' d b
+      · intro i hi
+        show (g.nodes.set k _)[i]? = _
+        rw [List.getElem?_set_ne (by omega)]
+        exact hinv.todo i (by omega)
+  intro i n0 n h0 hn
+  have hfin := key g0.nodes.length 0 g0 (by omega) ⟨sameShape_refl g0, fun i _ _ hi => by omega, fun _ _ => rfl⟩
+  have hfold : fixExts g0 valid = (List.range' 0 g0.nodes.length).foldl (fun (g : G D) i =>
+        match getValidExts g i valid, g.nodes[i]? with
+        | some e, some nd => { g with nodes := g.nodes.set i { nd with exts := e } }
+        | _, _ => g) g0 := by
+    unfold fixExts; rw [List.range_eq_range']; rfl
+  rw [hfold] at hn
+  rw [Nat.zero_add] at hfin
+  have hlt : i < g0.nodes.length := Graph.getElem?_lt h0
+  obtain ⟨m, hm, hseq⟩ := shape_get g0 _ hfin.shape i n hn
+  rw [h0] at hm; cases hm
+  have hdat : n.data = n0.data := by
+    have hs := congrArg (·[i]?) hfin.shape.2.2.2
+    simp only [List.getElem?_map, hn, h0, Option.map_some, Option.some.injEq] at hs
+    exact hs
+  exact ⟨hseq.symm, hdat, hfin.done i n0 n hlt h0 hn⟩
+
+/-- **C09 (no dangling extension).** In the graph returned by `compress_graph`, every recorded extension of every node
+    resolves through `find_link` to a node of that graph. -/
+theorem C09_no_dangling (st : Bool) (g : G D) (join : D → D → Bool) (reduce : D → D → D) (censor : List Nat)
+    (g' : G D) (paths : List (List (Nat × Dir))) (h : compressGraph st g join reduce censor = some (g', paths))
+    (i : Nat) (n : Node D) (hn : g'.nodes[i]? = some n) (d : Dir) (b : Compress.Base) (hb : has n.exts d b) :
+    ∃ t s f, findLink g' (Compress.extend (termKmer g'.K n.seq d) b d) d = some (t, s, f) := by
+  unfold compressGraph at h
+  dsimp only at h
+  split at h
+  · simp at h
+  · rename_i nodes hloop
+    simp only [Option.some.injEq, Prod.mk.injEq] at h
+    obtain ⟨hg', _⟩ := h
+    subst hg'
+    have sh := fixExts_shape (⟨g.K, nodes.map (·.1), st⟩ : G D) none
+    obtain ⟨n0, hn0, _⟩ := shape_get _ _ sh i n hn
+    obtain ⟨hseq, _, hex⟩ := fixExts_exact (⟨g.K, nodes.map (·.1), st⟩ : G D) none i n0 n hn0 hn
+    obtain ⟨_, t, s, f, hl, _⟩ := (hex d b).mp hb
+    refine ⟨t, s, f, ?_⟩
+    rw [findLink_shape _ _ sh, sh.1, hseq]
+    exact hl
+
+end CompressGraph
+
+namespace CompressGraph
+open Compress (Seq Exts Node windowsOf)
+open Walk (Dir rm mem_rm)
+open Graph
+variable {D : Type}
+
+/-- payload fold of `build_node`: the seed's payload, then the left path's, then the right path's -/
+def payloadFold (g : G D) (reduce : D → D → D) (acc : Option D) (p : Nat × Dir) : Option D :=
+  match acc, (g.nodes[p.1]?).map (·.data) with
+  | some d, some x => some (reduce d x)
+  | _, _ => none
+
+/-- **C09 (payload).** The payload of a merged node is the caller's reduction folded over the payloads of exactly the
+    old nodes on its path: seed first, then the left path outwards, then the right path outwards. -/
+theorem buildNode_payload (g : G D) (st : Bool) (join : D → D → Bool) (reduce : D → D → D) (avail : List Nat) (seed : Nat)
+    (nd : Node D) (path : List (Nat × Dir)) (a' : List Nat) (h : buildNode g st join reduce avail seed = some (nd, path, a')) :
+    ∃ (sn : Node D) (lpath rpath : List (Nat × Dir)), g.nodes[seed]? = some sn ∧
+      path = (lpath.map fun p => (p.1, p.2.flip)).reverse ++ [(seed, Dir.L)] ++ rpath ∧
+      some nd.data = rpath.foldl (payloadFold g reduce) (lpath.foldl (payloadFold g reduce) (some sn.data)) := by
+  unfold buildNode at h
+  cases hn : g.nodes[seed]? with
+  | none => simp [hn] at h
+  | some sn =>
+    simp only [hn] at h
+    cases hL : extendNode g st join (rm avail seed) seed .L with
+    | none => simp [hL] at h
+    | some rl =>
+      obtain ⟨lpath, lext, a2⟩ := rl
+      simp only [hL] at h
+      cases hR : extendNode g st join (rm a2 seed) seed .R with
+      | none => simp [hR] at h
+      | some rr =>
+        obtain ⟨rpath, rext, a3⟩ := rr
+        simp only [hR] at h
+        split at h
+        · rename_i dat sq hdat hsq
+          simp only [Option.some.injEq, Prod.mk.injEq] at h
+          obtain ⟨rfl, rfl, rfl⟩ := h
+          exact ⟨sn, lpath, rpath, rfl, rfl, hdat.symm⟩
+        · simp at h
 
 end CompressGraph
